@@ -98,6 +98,23 @@ def handle2 : List String → Option String
       let n0 ← P.nat; let n1 ← P.nat; let n2 ← P.nat; let l ← P.rep P.rat (n0 * n1 * n2); P.done
       let r := rotCorr3 ⟨ax, ay, az⟩ R ⟨dt, arr3OfList n0 n1 n2 l⟩
       pure (s!"{showDT r.dt} {n0} {n1} {n2} | " ++ showRats (arr3ToList r.arr))) rest
+  | "transfops" :: rest => runP (do
+      -- transfops <rounding> <mode> csS csD tx ty σ ang <nops> (A <tarr> | S tx ty σ ang)* : one correction object; prints the result
+      -- of the LAST apply
+      let rnd ← pRnd; let mode ← pMode'; let csS ← pCS2'; let csD ← pCS2'
+      let t ← pV2'; let σ ← P.rat; let ang ← P.rat
+      let ops ← P.list (do
+        let k ← P.tok
+        if k = "A" then (do let a ← pTArr; pure (TOp.apply a))
+        else (do let t' ← pV2'; let σ' ← P.rat; let ang' ← P.rat; pure (TOp.setParams (Affine2.mk' t' σ' (cosT ang') (sinT ang')))))
+      P.done
+      let step := tstep mode csS csD rnd
+      let fin := ops.foldl (fun (acc : TState × Option TArr) op =>
+        let r := step acc.1 op
+        (r.1, match r.2 with | some x => some x | none => acc.2)) (⟨0, Affine2.mk' t σ (cosT ang) (sinT ang), none⟩, none)
+      match fin.2 with
+      | some r => pure (showTArr r)
+      | none => pure "none") rest
   | "transfrun" :: rest => runP (do
       let rnd ← pRnd; let mode ← pMode'; let csS ← pCS2'; let csD ← pCS2'
       let t ← pV2'; let σ ← P.rat; let ang ← P.rat
@@ -110,15 +127,16 @@ def handle2 : List String → Option String
   | _ => none
 
 /-! ### round 3: operational heap workflow with an effectful toy `correct_array`
-hcall <original|work> <overwrite> <series> a b <inplace> <retarg> <nmeta> (k v)* <nupd> (k v)* <nslices> (<len> v..)*
+hcall <overwrite> <series> a b <inplace> <retarg> <nmeta> (k v)* <nupd> (k v)* <nslices> (<len> v..)*
   toy correct_array: result a*x+b (computed first), optional in-place write x+100 into its argument, optionally returns its argument
 response: <result is input> | input buffer afterwards | result data | <result buffer is the input's buffer> | metadata of result -/
 def handle3 : List String → Option String
-  | "hcall" :: srcTok :: rest => runP (do
+  | "hcall" :: rest => runP (do
       let ow ← P.bool; let series ← P.bool; let a ← P.int; let b ← P.int; let inpl ← P.bool; let retarg ← P.bool
       let m ← P.list pKV; let u ← P.list pKV
       let slices ← P.list (P.list P.int); P.done
-      let src : CorrHeap.SliceSrc := if srcTok = "original" then .original else .work
+      -- views are taken from the working array (the code as it is); `.original` only documents the tree before the fix (theorems)
+      let src : CorrHeap.SliceSrc := .work
       let e : CorrHeap.Eff := ⟨fun x => x.map fun v => a * v + b,
         if inpl then some (fun x => x.map (· + 100)) else none, if retarg then .arg else .fresh⟩
       let h : CorrHeap.Heap := ⟨1, fun _ => CorrHeap.bufOfList slices⟩
@@ -153,16 +171,23 @@ def handle4 : List String → Option String
       let pts := (List.range ny).flatMap fun (i : Nat) => (List.range nx).map fun (j : Nat) => transformCoords c nx ny j i
       pure (showRats (pts.map (·.1)) ++ " | " ++ showRats (pts.map (·.2)))) rest
   | "curv" :: rest => runP (do
-      -- curv <resize factor> <init?> <bulge?> <stretch?> <nhist> (n0 n1 vals)* n0 n1 vals ; order-0 interpolation;
-      -- cells whose value depends on which side of a half-integer a resampling coordinate falls are printed as `?`
+      -- curv <order 0|1> <use file cache> <resize factor> <init?> <bulge?> <stretch?> <nhist> (<new object?> n0 n1 vals)* <new object?> n0 n1 vals
+      -- cells whose value depends on which side of a breakpoint (half-integer for order 0, domain boundary) a resampling coordinate
+      -- falls are printed as `?`
+      let order ← P.nat; let useFile ← P.bool
       let f ← P.rat; let ini ← pOptBS; let bul ← pOptBS; let str ← pOptBS
-      let hist ← P.list pArr2; let a ← pArr2; P.done
+      let hist ← P.list (do let fr ← P.bool; let x ← pArr2; pure (fr, x))
+      let lastFresh ← P.bool; let a ← pArr2; P.done
       let cfg0 : CurvCfg := ⟨ini, false, bul, str⟩
       let cfg := if f = 1 then cfg0 else adaptCfg f cfg0
       let eps : Rat := 1 / 1000
-      let r0 := curvRun interpNearest id cfg none hist a
-      let rp := curvRun (interpNearestShift eps) id cfg none hist a
-      let rm := curvRun (interpNearestShift (-eps)) id cfg none hist a
+      let ip := fun (δ : Rat) => if order = 0 then interpNearestShift δ else interpLinearShift δ
+      let run := fun (δ : Rat) =>
+        if useFile then curvRunFile (ip δ) id cfg (none, none) hist lastFresh a
+        else curvRun (ip δ) id cfg none (hist.map (·.2)) a
+      let r0 := run 0
+      let rp := run eps
+      let rm := run (-eps)
       let cells := (List.range r0.n0).flatMap fun (i : Nat) => (List.range r0.n1).map fun (j : Nat) =>
         let v := r0.get i j
         if rp.n0 = r0.n0 ∧ rp.n1 = r0.n1 ∧ rp.get i j = v ∧ rm.get i j = v then showRat v else "?"
